@@ -767,9 +767,11 @@ class Plan:
                 ren["names"]["struct_name"] = "MyNames"
                 some = {f: ({"name": f"x{f.lower()}"} if i % 2 else {"vis": "pub"}) for i, f in enumerate(render.DEFAULT_NAME)}
                 # identifiers are Unicode (XID), not ASCII
-                uni = {f: {"name": f"größe_{f.lower()}" if f not in ("MIN", "MAX") else f"GRÖSSE_{f}"} for f in render.DEFAULT_NAME}
-                uni["iter"]["struct_name"] = "GrößenIter"
-                uni["names"]["struct_name"] = "名前たち"
+                # (XID_Start / XID_Continue: letters of any script, combining marks, viramas, tone marks, the middle dot)
+                pool = ["größe_%s", "क्रम_%s", "ชื่อ_%s", "x\u0302_%s", "名前_%s", "a\u00b7b_%s", "_%s\u0301", "ĳ_%s"]
+                uni = {f: {"name": pool[i % len(pool)] % f.lower()} for i, f in enumerate(render.DEFAULT_NAME)}
+                uni["iter"]["struct_name"] = "क्रमसूची"
+                uni["names"]["struct_name"] = "ชื่อNamesx\u0302"
                 variants = [cfg]
                 for extra in (ren, some, uni):
                     feats = [(f, dict(pr, **extra.get(f, {}))) for f, pr in cfg["feats"]]
